@@ -85,7 +85,7 @@ def run(ctx) -> None:
     r01_9(ctx)
     r01_10(ctx)
     from . import lockstep
-    lockstep.zip_longest_table(ctx, "R01.11")
+    lockstep.zip_longest_table(ctx, "R01.11", consumption=False)
     ctx.floor("zip_longest_cells_decided", 100)
     # "ends the same way": the scopes the tools run their sources in never swallow what the source,
     # the predicate or the function raised (C06's rule on library __aexit__ methods, shared)
@@ -94,7 +94,7 @@ def run(ctx) -> None:
     ctx.rule("R01.13", "the library's own context managers around the sources never suppress an exception (R06.3, shared)")
     c06._aexit_falsy(Relabel(ctx, "R01.13"))
     from . import tooltables
-    tooltables.tool_tables(ctx, "R01.12")
+    tooltables.tool_tables(ctx, "R01.12", tooltables.ITEMS_AND_END)
     ctx.floor("tool_cells_decided", 120)
     ctx.floor("merge_cells", 6)
     ctx.floor("yield_sites", 18)
@@ -336,8 +336,8 @@ def r01_9(ctx) -> None:
 def r01_10(ctx) -> None:
     from . import c05
     from .common import Relabel
-    ctx.rule("R01.10", "islice equals itertools.islice (items yielded and items consumed) on a cube of slicings (R05.5, shared)")
-    c05.r05_5(Relabel(ctx, "R01.10"))
+    ctx.rule("R01.10", "islice yields what itertools.islice yields on a cube of slicings (the table of R05.5, compared on the items only)")
+    c05.r05_5(Relabel(ctx, "R01.10"), consumption=False)
 
 
 def _eval_method(ctx, cls_short: str, mname: str, outcome: str, reverse: bool, a: str, b: str):
